@@ -223,7 +223,34 @@ func (a *Operator) useHexBackslashes(input string) string {
 // to be interpreted as a literal.
 func (a *Operator) includeVerticalTabInSpaceClass(input string) string {
 	logger.Trace().Msg("Fixing up regex to include vertical tab (VT) in white space class matches")
-	return strings.ReplaceAll(input, `\t\n\f\r `, `\s\x0b`)
+	// The sequence is only the white space class when it occurs inside
+	// a bracket expression. Outside it is a literal run of characters.
+	const perlSpace = `\t\n\f\r `
+	var sb strings.Builder
+	inClass := false
+	for i := 0; i < len(input); {
+		switch {
+		case inClass && strings.HasPrefix(input[i:], perlSpace):
+			sb.WriteString(`\s\x0b`)
+			i += len(perlSpace)
+			if i < len(input) && input[i] == '-' {
+				// the blank is the start of a range, e.g., `[\t\n\f\r -~]`
+				sb.WriteByte(' ')
+			}
+		case input[i] == '\\' && i+1 < len(input):
+			sb.WriteString(input[i : i+2])
+			i += 2
+		default:
+			if input[i] == '[' && !inClass {
+				inClass = true
+			} else if input[i] == ']' {
+				inClass = false
+			}
+			sb.WriteByte(input[i])
+			i++
+		}
+	}
+	return sb.String()
 }
 
 // rassemble-go doesn't provide an option to specify literals.
